@@ -20,7 +20,18 @@ run(res, seed, tier) -> stats
       transition for every API call under the oracle answers read from the shim log
         MISMATCH inv  -> corr:commit-inv   (no witness needed: the dump itself violates the invariant; the trace is attached)
         MISMATCH step -> corr:commit       (model and implementation disagree; witness=None)
-Stand-alone:  tools/commitmodel.py [seed] [tier]"""
+  (c) property C11 (prop="C11": tools/props/C11.py; theorems coq/Properties/C11back.v).  Every run ends with a DRAIN: every
+      block is freed and mi_collect(true) is called, each call in lockstep with the model like any other.  Then
+        T giveback ...      the real allocator still owns a segment, an arena block is still in use, a free block is still
+                            scheduled for a purge, the heap still has a page, or more is mapped outside the arena than
+                            at the start (segment-map parts excepted)                           -> impl:not-given-back
+                            (witness: the API calls of the run with the refused OS calls)
+        MISMATCH giveback   the boolean conclusion of C11_all_freed_gives_back / C11_all_freed_collect_purged evaluated on
+                            the synchronised model state differs from what the harness found     -> corr:give-back
+        MISMATCH step/inv   the lockstep was lost before the give-back point (and the harness found
+                            nothing itself)                                                      -> corr:give-back-lockstep
+      With prop="C11" only these keys (and build / crash / model-run failures) are reported: the other implementation-side keys are C07's.
+Stand-alone:  tools/commitmodel.py [seed] [tier] [C07|C11]"""
 import os, sys, collections
 sys.path.insert(0, os.path.dirname(os.path.abspath(__file__)))
 import vlib
@@ -30,6 +41,9 @@ SHIM_FLAGS = ["-DVERIF_SHIM", "-Dmmap=shim_mmap", "-Dmunmap=shim_munmap", "-Dmpr
 # variant bits of f_commit: bit0 eager_commit ; bits1-2 purge_delay (0: 10 ms frozen clock, 1: 0 immediate, 2: -1 never) ; bit3 purge_decommits = 0
 VARIANTS_QUICK = [("rel", 0), ("rel", 1), ("rel", 2), ("dbg", 0), ("dbg", 2), ("dbg", 1)]
 VARIANTS_THOROUGH = VARIANTS_QUICK + [("rel", 4), ("rel", 3), ("rel", 8), ("dbg", 3), ("dbg", 4), ("dbg", 8), ("dbg", 10)]
+# C11 runs the same harness with fewer / shorter runs (the step-by-step comparison of these runs is C07's job)
+VARIANTS_C11_QUICK = [("rel", 0), ("rel", 3), ("dbg", 0), ("dbg", 2), ("dbg", 5)]
+VARIANTS_C11_THOROUGH = VARIANTS_C11_QUICK + [("rel", 2), ("rel", 4), ("dbg", 1), ("dbg", 4), ("dbg", 8)]
 
 
 def build(res):
@@ -66,11 +80,24 @@ def trace_upto(lines, op, cfgname, seed, nops, variant):
             out.append(l)
         elif l.startswith("T ") and not l.startswith("T chk") and cur <= op:
             out.append(l)
-    return "\n".join(out[-300:])
+    return "\n".join(out if len(out) <= 300 else out[:2] + ["# ... (%d lines omitted)" % (len(out) - 299)] + out[-297:])   # the command line and CFG stay
 
 
-def run(res, seed, tier, nseeds=None, nops=None):
+def giveback_text(f):
+    """f: the fields of a `T giveback` line; None when everything was given back"""
+    segs, cursize, inuse, sched, pages, out0, out1, segmap = [int(x) for x in f[3:11]]
+    bad = []
+    if segs or cursize: bad.append("the thread still owns %d segment(s) (%d bytes)" % (segs, cursize))
+    if inuse: bad.append("%d arena block(s) are still in use (blocks_inuse)" % inuse)
+    if pages: bad.append("the heap still has %d page(s)" % pages)
+    if sched: bad.append("%d free arena block(s) are still scheduled for a purge after the forced collect" % sched)
+    if out1 > out0 + segmap: bad.append("%d bytes are mapped outside the arena, %d at the start (+%d segment-map bytes)" % (out1, out0, segmap))
+    return "; ".join(bad) if bad else None
+
+
+def run(res, seed, tier, nseeds=None, nops=None, prop="C07"):
     stats = collections.Counter()
+    c11 = (prop == "C11")
     exes = build(res)
     if exes is None:
         return dict(stats)
@@ -78,10 +105,16 @@ def run(res, seed, tier, nseeds=None, nops=None):
     if not okb:
         res.violation("model-build", "extracted model does not build: " + txt[-1200:])
     thorough = (tier == "thorough")
-    nseeds = nseeds or (5 if thorough else 3)
-    nops = nops or (450 if thorough else 260)
+    if c11:
+        nseeds = nseeds or (4 if thorough else 2)
+        nops = nops or (300 if thorough else 160)
+        variants = VARIANTS_C11_THOROUGH if thorough else VARIANTS_C11_QUICK
+    else:
+        nseeds = nseeds or (5 if thorough else 3)
+        nops = nops or (450 if thorough else 260)
+        variants = VARIANTS_THOROUGH if thorough else VARIANTS_QUICK
     samples = []
-    for cfgname, variant in (VARIANTS_THOROUGH if thorough else VARIANTS_QUICK):
+    for cfgname, variant in variants:
         for k in range(nseeds):
             s = seed * 100 + k
             rc, out, err = vlib.run_split([exes[cfgname], str(s), str(nops), str(variant)], timeout=600, env=vlib.clean_env())
@@ -120,6 +153,15 @@ def run(res, seed, tier, nseeds=None, nops=None):
                            "no later operation frees it (mi_collect reaches segments through their pages); model: C07_no_unused_segment" % (f[3], f[4], f[5]))
                 elif kind == "crash":
                     bad = ("impl:crash", "signal %s during API call %s" % (f[3], f[2]))
+                elif kind == "giveback":
+                    stats["giveback_points"] += 1
+                    txt = giveback_text(f)
+                    if txt:
+                        stats["not_given_back"] += 1
+                        if c11:
+                            bad = ("impl:not-given-back", "after every block was freed and mi_collect(true) returned: " + txt)
+                if bad and c11 and bad[0] not in ("impl:not-given-back", "impl:crash"):
+                    stats["c07_keys_seen"] += 1; bad = None
                 if bad and bad[0] not in seen:
                     seen.add(bad[0]); stats["impl_violations"] += 1
                     op = int(f[2])
@@ -143,8 +185,22 @@ def run(res, seed, tier, nseeds=None, nops=None):
                 if (rc2 != 0 or not done) and not crashed:
                     res.violation("model-run", "model replay (mode commit) failed: " + mout[-800:])
                 inv = [l for l in mism if l.startswith("MISMATCH inv")]
-                stp = [l for l in mism if not l.startswith("MISMATCH inv")]
+                gvb = [l for l in mism if l.startswith("MISMATCH giveback")]
+                stp = [l for l in mism if not l.startswith("MISMATCH inv") and not l.startswith("MISMATCH giveback")]
                 stats["model_mismatches"] += len(mism)
+                stats["model_giveback_true"] += sum(1 for l in ml if l.startswith("GIVEBACK model all_freed=true gave_back=true purged=true"))
+                if c11:
+                    if gvb:
+                        res.violation("corr:give-back", "the give-back conclusion evaluated on the synchronised model state and the real allocator disagree (%s build, variant %d, seed %d): %s" % (
+                            cfgname, variant, s, gvb[0][:900]), witness=None)
+                    if stp or inv:
+                        # the give-back evaluation is only as good as the lockstep: a lost lockstep is reported (C07 reports the details)
+                        vlib.log("[C11] commit lockstep lost in %s/%d seed %d (%d records): %s" % (cfgname, variant, s, len(stp) + len(inv), (stp + inv)[0][:300]))
+                        stats["lockstep_lost_runs"] += 1
+                        if "impl:not-given-back" not in seen:
+                            res.violation("corr:give-back-lockstep", "the commit model and the real allocator disagree before the give-back point (%s build, variant %d, seed %d; %d records; "
+                                          "tools/check C07 reports the same under corr:commit / corr:commit-inv), first: %s" % (cfgname, variant, s, len(stp) + len(inv), (stp + inv)[0][:900]), witness=None)
+                    inv = []; stp = []
                 if inv:
                     try:
                         op = int(inv[0].split()[3].rstrip(":"))
@@ -162,6 +218,16 @@ def run(res, seed, tier, nseeds=None, nops=None):
     res.cov["distinct_nontrivial"] = res.cov.get("distinct_nontrivial", 0) + stats["refused_os_calls"]
     res.cov["traces_validated_against_impl"] = res.cov.get("traces_validated_against_impl", 0) + stats["runs"]
     res.cov["disagreements_checked"] = res.cov.get("disagreements_checked", 0) + stats["model_mismatches"]
+    if c11:
+        if stats["giveback_points"] != stats["runs"] or stats["model_giveback_checks"] != stats["runs"]:
+            vlib.log("[C11] %d runs, %d give-back points in the harness output, %d evaluated by the model" % (stats["runs"], stats["giveback_points"], stats["model_giveback_checks"]))
+        res.cov["giveback_layer"] = dict(stats)
+        res.cov["giveback_layer_rule"] = ("every run (seeded mallocs / frees / forced collects on one arena under refused mprotect calls) is drained: every block freed, "
+                                          "mi_collect(true); the harness then checks the real allocator (no segment owned, blocks_inuse clear, nothing scheduled, no heap "
+                                          "page, nothing more mapped outside the arena) and the extracted model evaluates all_freed_b / gave_back_b / no_purge_scheduled_b / "
+                                          "inuse_owned_b on its state, which was kept in lockstep call by call (steps_exact of steps)")
+        res.add_samples(samples + [l[:200] for l in lines if l.startswith("T giveback")][:1], limit=12)
+        return dict(stats)
     res.cov["commit_layer"] = dict(stats)
     res.cov["commit_layer_rule"] = ("every API call of every run is one evaluation: commit_inv_b on the dumped real state and the exact model transition "
                                     "(arena bitmap words, commit/purge mask words, live pages, ledger) under the oracle answers of that call; "
@@ -173,8 +239,9 @@ def run(res, seed, tier, nseeds=None, nops=None):
 if __name__ == "__main__":
     seed = int(sys.argv[1]) if len(sys.argv) > 1 else 1
     tier = sys.argv[2] if len(sys.argv) > 2 else "quick"
-    r = vlib.Result("C07", tier, seed)
-    st = run(r, seed, tier)
+    prop = sys.argv[3] if len(sys.argv) > 3 else "C07"
+    r = vlib.Result(prop, tier, seed)
+    st = run(r, seed, tier, prop=prop)
     for k in sorted(st):
         print("%-32s %d" % (k, st[k]))
     for k, p, w, t in r.violations:
